@@ -331,13 +331,17 @@ static void
 c_inffeed(void)
 {
     size_t len = (size_t) strtoull(F[1], NULL, 10);
+    /* optional third field: that many octets of garbage BEHIND the complete deflate stream (same feed) */
+    size_t trail = NF > 2 ? (size_t) strtoull(F[2], NULL, 10) : 0;
     jose_cfg_t *cfg = jose_cfg();
     const jose_hook_alg_t *a = jose_hook_alg_find(JOSE_HOOK_ALG_KIND_COMP, "DEF");
-    uint8_t *buf = malloc(len ? len : 1);
+    uint8_t *buf = malloc(len + trail ? len + trail : 1);
     if (len >= 5)
         stored_stream(buf, len);
     else
         memset(buf, 0, len);
+    memset(buf + len, 0x55, trail);
+    len += trail;
     count_t sink = { .io = { .refs = 1, .feed = cnt_feed, .done = cnt_done, .free = cnt_free }, .n = 0 };
     jose_io_t *inf = a ? a->comp.inf(a, cfg, &sink.io) : NULL;
     if (!inf) {
